@@ -594,11 +594,12 @@ class Case:
         self.rechecks = []   # (fn, args, stream, tok, canonical outcome) of deterministic calls, re-run at the end of the run
 
     # -- implementation + model in one go --------------------------------
-    def call(self, fn, *args, op=None, stream="plain", with_entropy=False, compare=True, tok=None):
-        """psec.<fn>(*args) on the implementation; same operation as a line for the model."""
+    def call(self, fn, *args, op=None, stream="plain", with_entropy=False, compare=True, tok=None, entropy=None):
+        """psec.<fn>(*args) on the implementation; same operation as a line for the model. `entropy`: bytes the operating
+        system is made to return during this call (chosen values of the random fill) instead of real entropy."""
         toks = [enc(a) for a in args]
         _probe_before(fn, args)
-        r = call_impl(fn, args, stream=stream)
+        r = call_impl(fn, args, stream=stream, replay_entropy=entropy)
         self.calls.append({"fn": fn, "args": toks, "entropy": r.entropy.hex(), "stream": stream})
         if r.args_changed:
             self.impl_fail.append(f"{fn} modified its arguments")
